@@ -189,6 +189,15 @@ func genCase(t *rapid.T, crash bool) Case {
 			insert([]int{ip.at + 1}) // the child of the invalid block on its own
 		}
 	}
+	// directed opening for a fully voted invalid block with a child (real engine): its valid twin becomes
+	// the head, the invalid twin is offered alone (a competing block at a known height), then its child alone -
+	// the node must not build on a block it has never executed
+	for k, ip := range invs {
+		if c.Engine == "ucon" && ip.n == 2 && strings.HasPrefix(c.Invalid[k].Kind, "ucon-voted-") && rapid.Bool().Draw(t, "twinopening") {
+			c.Calls = append(c.Calls, append(ancestors(ip.base, 100), ip.base-1), []int{ip.at}, []int{ip.at + 1})
+			break
+		}
+	}
 	for _, s := range segs {
 		c.Calls = append(c.Calls, append([]int(nil), s...))
 	}
@@ -313,7 +322,7 @@ func runCase(c Case) (res kit.Result) {
 	if fs := checkInvariants(main, u); len(fs) > 0 {
 		return kit.Fail("genesis-inconsistent", "%s", joinFails(fs))
 	}
-	strict := c.Crash != nil && c.Crash.Only != nil
+	strict := c.Strict || (c.Crash != nil && c.Crash.Only != nil)
 	for j, call := range c.Calls {
 		blocks := u.resolve(call)
 		if len(blocks) == 0 {
@@ -336,7 +345,7 @@ func runCase(c Case) (res kit.Result) {
 			cls := "import-" + fs[0].kind
 			if adoptedStoredUnvalidated(main, u, fs, storedUnvalidated) {
 				cls = clsStoredUnvalidated
-				if !strict && c.Crash == nil && kit.IsKnown(cls) {
+				if !strict && kit.IsKnown(cls) {
 					// the node is beyond repair for this schedule: count it and stop the case here
 					r.label("excluded:" + cls)
 					return kit.OK(r.nt, r.sortedLabels()...)
